@@ -6,17 +6,29 @@
    separators `;` and blank line, the expression terminator `;;`, and the implicit list (two values with a blank).
    No claim is made here about which sequences are well formed: totality (C03) is about EVERY input. *)
 EXTENDS Integers, Sequences, TLC, Json
-CONSTANTS L, CLASSES, SEPS
+CONSTANTS L, CLASSES, SEPS, BALANCED
 Text(c) == CASE c = "val" -> "5" [] c = "id" -> "a" [] c = "unit" -> "()" [] c = "str" -> "\"s\"" [] c = "sym" -> ":k"
              [] c = "pre" -> "--" [] c = "suf" -> "~~" [] c = "bin" -> "+" [] c = "acc" -> "." [] c = "pair" -> "=" [] c = "comma" -> ","
              [] c = "cond" -> "?>" [] c = "else" -> "|>" [] c = "apply" -> "<~" [] c = "reapply" -> "^~" [] c = "and" -> "&&"
              [] c = "open" -> "(" [] c = "close" -> ")" [] c = "nopen" -> "{" [] c = "nclose" -> "}" [] c = "sopen" -> "[" [] c = "sclose" -> "]"
              [] c = "sep" -> ";" [] c = "blankline" -> "\n\n" [] c = "term" -> ";;" [] c = "suflen" -> ".|" [] c = "prefixid" -> "f`" [] c = "infixid" -> "`f`"
 SepText(s) == CASE s = "none" -> "" [] s = "blank" -> " " [] s = "annot" -> " @x " [] s = "nl" -> "\n" [] OTHER -> " "
-VARIABLES seq
-Init == seq = <<>>
-Next == Len(seq) < L /\ \E c \in CLASSES, s \in SEPS : seq' = Append(seq, <<c, s>>)
-Spec == Init /\ [][Next]_seq
+\* BALANCED = TRUE: only sequences whose brackets nest properly are grown and emitted (a much higher share of them is accepted
+\* by the pipeline, which is what C04 / C05 need); FALSE: every sequence (totality, C03)
+VARIABLES seq, stk
+Opener(c) == c \in {"open", "nopen", "sopen"}
+Closer(c) == c \in {"close", "nclose", "sclose"}
+Match(o, c) == <<o, c>> \in {<<"open", "close">>, <<"nopen", "nclose">>, <<"sopen", "sclose">>}
+Init == seq = <<>> /\ stk = <<>>
+Next == /\ Len(seq) < L
+        /\ \E c \in CLASSES, s \in SEPS :
+             /\ seq' = Append(seq, <<c, s>>)
+             /\ IF ~BALANCED THEN stk' = stk
+                ELSE IF Opener(c) THEN stk' = Append(stk, c) /\ Len(stk) + 1 <= L - Len(seq) - 1     \* leave room to close
+                ELSE IF Closer(c) THEN stk # <<>> /\ Match(stk[Len(stk)], c) /\ stk' = SubSeq(stk, 1, Len(stk) - 1)
+                ELSE stk' = stk
+Spec == Init /\ [][Next]_<<seq, stk>>
 Parts == [i \in DOMAIN seq |-> <<Text(seq[i][1]), SepText(seq[i][2])>>]
-Emit == seq # <<>> => PrintT(<<"REPLAY", ToJson([parts |-> Parts, classes |-> [i \in DOMAIN seq |-> seq[i][1]], seps |-> [i \in DOMAIN seq |-> seq[i][2]]])>>)
+Emit == (seq # <<>> /\ (BALANCED => stk = <<>>)) =>
+          PrintT(<<"REPLAY", ToJson([parts |-> Parts, classes |-> [i \in DOMAIN seq |-> seq[i][1]], seps |-> [i \in DOMAIN seq |-> seq[i][2]]])>>)
 ==============================================================================
